@@ -23,6 +23,7 @@ def bwOnly (P : X86Params) (op : String) (a : List Nat) : Option String :=
   | "gf_sqrt", [x] => let r := X86.sqrt P x; some (h r.1 ++ " " ++ h r.2)
   | "gf_legendre", [x] => some (h (X86.legendre P x))
   | "gf_decode_reduce", [len, v] => some (h (X86.decode_reduce P len v))
+  | "fp_decode_reduce", [len, v] => some (h (X86.decode_reduce P len v))
   -- internal functions (no C entry point in the stock harness; used by model-level tests)
   | "gf_lin", [u, v, f, g] => some (h (X86.lin P u v f g))
   | "gf_lindiv31abs", [x, y, f, g] => let r := X86.lindiv31abs P x y f g; some (h r.1 ++ " " ++ h r.2)
